@@ -106,6 +106,21 @@ fn derive_item<T: std::hash::Hash + Clone>(out: &mut Shards, kind: &str, item: T
     let bytes = sk.serialize();
     let c = u32::from_le_bytes([bytes[8], bytes[9], bytes[10], bytes[11]]);
     out.ev(json!({"op":"Derive","what":"hll_coupon","kind":kind,"lib":[c & ((1<<26)-1), c >> 26],"ref":[slot, val]}));
+    // XXH64 side: the bits a Bloom filter sets for the item against the reference double hashing
+    let mut bf = datasketches::bloom::BloomFilterBuilder::with_size(1000, 5).seed(4242).build();
+    bf.insert(item.clone());
+    let mut want = crate::fam_bloom::positions(&item, 4242, 5, bf.capacity() as u64);
+    want.sort();
+    want.dedup();
+    out.ev(json!({"op":"Derive","what":"bloom_bits","kind":kind,"lib":crate::fam_bloom::image_bits(&bf.serialize()),"ref":want}));
+    // Count-Min: the cell each row counts the item in (7 buckets: not a power of two), read from the image
+    let mut cm = datasketches::countmin::CountMinSketch::<u64>::with_seed(3, 7, 4242);
+    cm.update_with_weight(item.clone(), 1);
+    let img = cm.serialize();
+    let cells: Vec<u64> = (0..21).filter(|i| img[24 + 8 * i] == 1).map(|i| i as u64).collect();
+    let want: Vec<u64> = crate::fam_cm::row_seeds(4242, 3).iter().enumerate()
+        .map(|(r, s)| r as u64 * 7 + refhash::murmur3_x64_128(&refhash::hashed_bytes(&item), *s).0 % 7).collect();
+    out.ev(json!({"op":"Derive","what":"countmin_cells","kind":kind,"lib":cells,"ref":want}));
     let mut th = ThetaSketch::builder().build();
     th.update(item.clone());
     let lib = th.iter().next().unwrap_or(0);
@@ -166,6 +181,11 @@ fn derive_typed(out: &mut Shards, rng: &mut Rng) {
     derive_item(out, "String15", "x".repeat(15));
     derive_item(out, "String31", "y".repeat(31));
     derive_item(out, "f64-bits", (a as f64).to_bits());
+    derive_item(out, "(u64,u64,u64,u64)", (a, b, c, a ^ b));
+    derive_item(out, "String31", "z".repeat(31));
+    derive_item(out, "String63", "w".repeat(63));
+    derive_item(out, "(u64,u64,u64,u32,u32)", (a, b, c, a as u32, b as u32));
+    derive_item(out, "[u64;8]", [a, b, c, a, b, c, a, b]);
 }
 
 fn derive(out: &mut Shards, rng: &mut Rng, n: usize) {
